@@ -211,7 +211,14 @@ func parseString(s *sqliState) int {
 }
 
 func parseWord(s *sqliState) int {
-	length := strLenCSpn(s.input[s.pos:], s.length-s.pos, wordAcceptTable)
+	// scan at most tokenSize bytes first: a keyword split below only looks at the
+	// clipped value, so the full word length is needed only when no split happens
+	remaining := s.length - s.pos
+	window := remaining
+	if window > tokenSize {
+		window = tokenSize
+	}
+	length := strLenCSpn(s.input[s.pos:], window, wordAcceptTable)
 	s.current.assign(sqliTokenTypeBareWord, s.pos, length, s.input[s.pos:])
 
 	// now we need to look inside what we good for "." and "`"
@@ -228,6 +235,11 @@ func parseWord(s *sqliState) int {
 				return s.pos + i
 			}
 		}
+	}
+
+	if length == window && window < remaining {
+		// the word continues past the window: finish the scan
+		length += strLenCSpn(s.input[s.pos+window:], remaining-window, wordAcceptTable)
 	}
 
 	// do normal lookup with word including '.'
